@@ -201,6 +201,17 @@ UNITS = {
         'title': 'Datetime::from_str == O-dt in situ on every ASCII string of 11 and 12 bytes (bounded: ASCII only)',
         'witness': ['witness-k3'], 'replay': 'replay-k3',
     },
+    'K9q': {
+        'engine': 'kani', 'crate': 'toml_edit', 'harnesses': ['k9_ws_n3', 'k9_newline_n3'],
+        'complete': False, 'bound': 'every valid UTF-8 input of 3 bytes', 'timeout': 900,
+        'title': 'trivia.rs ws / newline in situ: bytes taken = longest run of wschar / exactly LF or CR LF (bounded: 3-byte inputs)',
+    },
+    'K9': {
+        'engine': 'kani', 'crate': 'toml_edit',
+        'harnesses': ['k9_ws_n3', 'k9_newline_n3', 'k9_ws_newline_n2', 'k9_ws_newline_n3', 'k9_ws_newlines_n2', 'k9_ws_newlines_n3'],
+        'complete': False, 'bound': 'every valid UTF-8 input of 2 and 3 bytes', 'timeout': 3000,
+        'title': 'trivia.rs ws / newline / ws_newline / ws_newlines in situ: bytes taken = longest run of the ABNF rule (ws-newline = *( wschar / newline ), ws-newlines = newline ws-newline) (bounded: 2- and 3-byte inputs)',
+    },
     'K5': {
         'engine': 'kani', 'crate': 'toml_edit', 'harnesses': ['k5_hexescape4', 'k5_hexescape8'], 'complete': True,
         'timeout': 7200, 'max_jobs': 4,
@@ -234,8 +245,8 @@ PLAN = {
     'C10': {'quick': ['V1', 'K1'], 'thorough': ['V1', 'K1']},
     'C04': {'quick': ['V1', 'V3', 'V4', 'V5', 'V6', 'V7', 'V9', 'V10', 'V11', 'K1', 'K12', 'K8q'], 'thorough': ['V1', 'V3', 'V4', 'V5', 'V6', 'V7', 'V9', 'V10', 'V11', 'K1', 'K12', 'K8', 'K8t', 'K3t', 'K5']},
     'C11': {'quick': ['K7', 'K7s', 'K6e', 'K6t', 'K6d', 'V8', 'V12', 'K11f', 'K11s'], 'thorough': ['K7', 'K7s', 'K6e', 'K6t', 'K6d', 'V8', 'V12', 'K11f', 'K11s']},
-    'C01': {'quick': ['K1', 'K7', 'V3', 'V4', 'V8', 'V9', 'V16', 'K2'], 'thorough': ['K1', 'K7', 'V3', 'V4', 'V8', 'V9', 'V16', 'K2', 'K2y', 'K5']},
-    'C02': {'quick': ['K2', 'K7s', 'K6t', 'K6d', 'V5', 'V7', 'V8', 'V9', 'V11', 'V12', 'V15'], 'thorough': ['K2', 'K2y', 'K7s', 'K6t', 'K6d', 'V5', 'V7', 'V8', 'V9', 'V11', 'V12', 'V15', 'K5']},
+    'C01': {'quick': ['K1', 'K7', 'V3', 'V4', 'V8', 'V9', 'V16', 'K2', 'K9q'], 'thorough': ['K1', 'K7', 'V3', 'V4', 'V8', 'V9', 'V16', 'K2', 'K2y', 'K5', 'K9']},
+    'C02': {'quick': ['K2', 'K7s', 'K6t', 'K6d', 'V5', 'V7', 'V8', 'V9', 'V11', 'V12', 'V15', 'K9q'], 'thorough': ['K2', 'K2y', 'K7s', 'K6t', 'K6d', 'V5', 'V7', 'V8', 'V9', 'V11', 'V12', 'V15', 'K5', 'K9']},
     'C05': {'quick': ['V3', 'V3m', 'K12'], 'thorough': ['V3', 'V3m', 'K12']},
     'C12': {'quick': ['V4', 'V5', 'V6', 'V7', 'V11', 'K2', 'K3q'], 'thorough': ['V4', 'V5', 'V6', 'V7', 'V11', 'K2', 'K2y', 'K3q', 'K3t', 'K3a']},
     'C14': {'quick': ['K11', 'K14', 'K14r', 'K14s', 'K14d', 'V14'], 'thorough': ['K11', 'K14', 'K14r', 'K14r8', 'K14s', 'K14d', 'V14']},
